@@ -1,7 +1,8 @@
 (* C20 — global-encoding flags are independent booleans.
    Only statements, closed by `exact`, with Print Assumptions; proofs live in Proofs/. *)
+From Coq Require Import String.
 From Coq Require Import ZArith List Bool.
-From LasV Require Import Lib.Base Gen.GenGlobalEncoding Model.GlobalEnc Proofs.GlobalEncProofs.
+From LasV Require Import Lib.Base Lib.BaseFacts Lib.Layout Gen.GenGlobalEncoding Gen.GenHeaderLayout Model.GlobalEnc Proofs.GlobalEncProofs.
 Import ListNotations.
 Open Scope Z_scope.
 
@@ -38,6 +39,20 @@ Print Assumptions C20_history_other_bits.
 Theorem C20_masks : ge_masks_ok = true.
 Proof. exact ge_masks_ok_true. Qed.
 Print Assumptions C20_masks.
+
+(* the field is the unsigned 16-bit little-endian integer at byte 6 of the header, in every version,
+   on the write side and on the read side (layouts extracted from write_to / read_from on every run) *)
+Theorem C20_field_position :
+  map (fun l => field_at l "global_encoding"%string 0)
+      [hdr_write_layout_1; hdr_write_layout_2; hdr_write_layout_3; hdr_write_layout_4;
+       hdr_read_layout_1; hdr_read_layout_2; hdr_read_layout_3; hdr_read_layout_4]
+  = repeat (Some (6, KUInt, 2%nat)) 8.
+Proof. vm_compute. reflexivity. Qed.
+Print Assumptions C20_field_position.
+
+Theorem C20_field_roundtrip : forall v, 0 <= v < 65536 -> le_dec (le_enc 2 v) = v /\ length (le_enc 2 v) = 2%nat.
+Proof. intros v Hv. split; [apply le_dec_enc; exact Hv | apply le_enc_length]. Qed.
+Print Assumptions C20_field_roundtrip.
 
 (* non-vacuity: a concrete non-trivial state meets the hypotheses and exercises both directions *)
 Example C20_nonvacuous :
